@@ -17,6 +17,8 @@ import typing as tp
 import uuid
 import warnings
 
+import typing_extensions as te
+
 from typelib import constants, ctx, serdes
 from typelib.py import compat, inspection, refs
 
@@ -1018,7 +1020,7 @@ class StructuredTypeUnmarshaller(AbstractUnmarshaller[_ST]):
         - [`typelib.serdes.itervalues`][]
     """
 
-    __slots__ = ("fields_by_var",)
+    __slots__ = ("fields_by_var", "required_keys")
 
     def __init__(self, t: type[_ST], context: ContextT, *, var: str | None = None):
         """Constructor.
@@ -1030,6 +1032,28 @@ class StructuredTypeUnmarshaller(AbstractUnmarshaller[_ST]):
         """
         super().__init__(t, context, var=var)
         self.fields_by_var = self._fields_by_var()
+        self.required_keys = self._required_keys()
+
+    def _required_keys(self) -> frozenset[str]:
+        # A TypedDict is a plain dict at runtime: calling it checks nothing, so the
+        #   keys every instance must have are enforced here, as a class constructor
+        #   does for a missing argument.
+        if not inspection.istypeddict(self.t):
+            return frozenset()
+        required = {*getattr(self.t, "__required_keys__", ())}
+        # String annotations hide `Required[...]`/`NotRequired[...]` from `typing`
+        #   when the class is created - look at the evaluated hints.
+        try:
+            hints = te.get_type_hints(self.t, include_extras=True)
+        except (NameError, TypeError):
+            hints = {}
+        for name, hint in hints.items():
+            origin = te.get_origin(hint)
+            if origin is te.NotRequired:
+                required.discard(name)
+            elif origin is te.Required:
+                required.add(name)
+        return frozenset(required)
 
     def _fields_by_var(self):
         fields_by_var = {}
@@ -1059,4 +1083,7 @@ class StructuredTypeUnmarshaller(AbstractUnmarshaller[_ST]):
         decoded = serdes.load(val)
         fields = self.fields_by_var
         kwargs = {f: fields[f](v) for f, v in serdes.iteritems(decoded) if f in fields}
+        if not self.required_keys <= kwargs.keys():
+            missing = sorted(self.required_keys - kwargs.keys())
+            raise TypeError(f"{self.t!r} is missing required keys: {missing!r}")
         return self.t(**kwargs)
